@@ -57,6 +57,11 @@ func run(evm *EVM, contract *Contract, input []byte, readOnly bool) ([]byte, err
 			if useGas(&evm.gasLeft, gas) {
 				ap, ok := p.(*AdminOP)
 				if ok {
+					// The precompile takes the submitting account from its input. Only the
+					// admin contract, which writes msg.sender there, may be believed.
+					if contract.CallerAddress != AdminContractAddr {
+						return nil, ErrAdminCaller
+					}
 					ap.SetState(evm.StateDB)
 				}
 				return p.Run(input)
